@@ -196,11 +196,85 @@ def generator_rules(cfg, R):
     R.instance('G4', 'tzdb.transformer.Transformer.transform', tf.loc)
     if not called:
         R.violation('G4', 'tzdb.transformer.Transformer.transform', tf.loc, 'transform() does not call _detect_hash_collisions')
+    symbol_guard_rule(R, tr)
+    link_target_rule(R, ar)
     df = tr.fn('Transformer._detect_hash_collisions')
     R.instance('G4', 'tzdb.transformer.Transformer._detect_hash_collisions', df.loc)
     msg = check_collision_detector(df)
     if msg:
         R.violation('G4', 'tzdb.transformer.Transformer._detect_hash_collisions', df.loc, msg)
+
+
+def symbol_guard_rule(R, tr):
+    """Two zone names that normalise to one C++ symbol would share one kZone<X> definition (and one id constant):
+    remove_zones_and_links_with_similar_names keeps a table of the normalised names seen so far.  Every table that the
+    function both probes and fills must be probed and filled under the same key, and that key must be normalize_name()
+    of the name at hand."""
+    R.rule('G5', 'the duplicate-symbol guard probes and fills its table of seen symbols under normalize_name(name)', floor=2)
+    f = tr.fn('Transformer.remove_zones_and_links_with_similar_names')
+    n = f.node
+    norm = {}
+    for x in ast.walk(n):
+        if isinstance(x, ast.Assign) and len(x.targets) == 1 and isinstance(x.targets[0], ast.Name) and isinstance(x.value, ast.Call) \
+                and isinstance(x.value.func, ast.Name) and x.value.func.id == 'normalize_name':
+            norm[x.targets[0].id] = ast.unparse(x.value.args[0]) if x.value.args else '?'
+    if not norm:
+        R.instance('G5', 'tzdb.transformer.' + f.name, f.loc)
+        R.violation('G5', 'tzdb.transformer.' + f.name, f.loc, 'the function no longer computes normalize_name(name)')
+        return
+    for lp in [x for x in ast.walk(n) if isinstance(x, ast.For)]:
+        probes, stores = {}, {}
+        for x in ast.walk(lp):
+            if isinstance(x, ast.Call) and isinstance(x.func, ast.Attribute) and x.func.attr == 'get' and isinstance(x.func.value, ast.Name) and x.args:
+                probes.setdefault(x.func.value.id, []).append(x.args[0])
+            elif isinstance(x, ast.Compare) and len(x.ops) == 1 and isinstance(x.ops[0], (ast.In, ast.NotIn)) and isinstance(x.comparators[0], ast.Name):
+                probes.setdefault(x.comparators[0].id, []).append(x.left)
+            elif isinstance(x, ast.Subscript) and isinstance(x.value, ast.Name) and isinstance(x.ctx, ast.Store):
+                stores.setdefault(x.value.id, []).append(x.slice)
+        for t in sorted(set(probes) & set(stores)):
+            c = 'tzdb.transformer.%s:%s@%s' % (f.name, t, ast.unparse(lp.target).replace(' ', ''))
+            R.instance('G5', c, tr.loc(lp))
+            pk = {ast.unparse(k) for k in probes[t]}
+            sk = {ast.unparse(k) for k in stores[t]}
+            if not all(k in norm for k in pk):
+                R.violation('G5', c, tr.loc(lp), 'the table %s is probed with %s, which is not normalize_name(name)' % (t, sorted(pk)))
+            elif sk != pk:
+                R.violation('G5', c, tr.loc(lp), 'the table %s is probed with %s but filled under %s: a second name with the same symbol is never found in it, '
+                            'so both are emitted and share one kZone definition and one id' % (t, sorted(pk), sorted(sk)))
+        if not (set(probes) & set(stores)):
+            R.instance('G5', 'tzdb.transformer.%s:loop@%s' % (f.name, ast.unparse(lp.target).replace(' ', '')), tr.loc(lp))
+            R.violation('G5', 'tzdb.transformer.%s:loop@%s' % (f.name, ast.unparse(lp.target).replace(' ', '')), tr.loc(lp),
+                        'the loop keeps no table of seen symbols that it both probes and fills')
+
+
+def link_target_rule(R, ar):
+    """A link is emitted as a reference to kZone<target>: the generator has to know the target is among the emitted zones
+    (the transformer removes zones after it has pruned links, so a link can outlive its target).  In the loop that emits
+    the link items the target name must be looked up in self.zones_map - a subscript (KeyError on a missing target) or a
+    membership test - before the item is generated."""
+    R.rule('G6', 'a link item is generated only after its target was looked up in the emitted zones', floor=1)
+    f = ar.fn('ZoneInfosGenerator.generate_infos_cpp')
+    loops = [x for x in ast.walk(f.node) if isinstance(x, ast.For) and 'links_map' in ast.unparse(x.iter)
+             and any(isinstance(y, ast.Call) and ast.unparse(y.func).endswith('_generate_link_item') for y in ast.walk(x))]
+    if not loops:
+        raise AnalysisError('%s: no loop over links_map that calls _generate_link_item (anchor moved)' % f.loc)
+    for lp in loops:
+        c = 'zonedb.argenerator.%s:links' % f.name
+        R.instance('G6', c, ar.loc(lp))
+        tgt = lp.target.elts[1].id if isinstance(lp.target, ast.Tuple) and len(lp.target.elts) == 2 and isinstance(lp.target.elts[1], ast.Name) else None
+        ok = False
+        for s in lp.body:
+            if any(isinstance(y, ast.Call) and ast.unparse(y.func).endswith('_generate_link_item') for y in ast.walk(s)):
+                break
+            for y in ast.walk(s):
+                if isinstance(y, ast.Subscript) and ast.unparse(y.value) == 'self.zones_map' and isinstance(y.ctx, ast.Load) and ast.unparse(y.slice) == tgt:
+                    ok = True
+                if isinstance(y, ast.Compare) and len(y.ops) == 1 and isinstance(y.ops[0], (ast.In, ast.NotIn)) \
+                        and ast.unparse(y.comparators[0]) == 'self.zones_map' and ast.unparse(y.left) == tgt:
+                    ok = True
+        if not ok:
+            R.violation('G6', c, ar.loc(lp), 'link items are generated without looking the target %s up in self.zones_map: a link whose target zone was removed '
+                        'after the links were pruned is emitted bound to whatever zone owns the symbol kZone<normalize_name(target)>' % tgt)
 
 
 def _stmt_exprs(s):
@@ -350,6 +424,13 @@ SELFTEST = [
     dict(id='collision-membership-spelling-silent', file='tools/tzdb/transformer.py', regex=True,
          find=r'            colliding_name = hashes.get\(h\)\n            if colliding_name:\n(                raise Exception\("Hash collision[^\n]*\n)            else:\n                hashes\[h\] = name',
          replace=r'            if h in hashes:\n\1            hashes[h] = name', expect='silent'),
+    dict(id='link-target-lookup-deleted', file='tools/zonedb/argenerator.py', find='            eras = self.zones_map[zone_name]\n            link_items += self._generate_link_item(link_name, zone_name)',
+         replace='            link_items += self._generate_link_item(link_name, zone_name)', rule='G6'),
+    dict(id='link-target-membership-test-silent', file='tools/zonedb/argenerator.py', find='            eras = self.zones_map[zone_name]\n            link_items += self._generate_link_item(link_name, zone_name)',
+         replace="            if zone_name not in self.zones_map:\n                raise Exception('link to a removed zone')\n            link_items += self._generate_link_item(link_name, zone_name)", expect='silent'),
+    dict(id='symbol-table-keyed-by-zone-name', file='tools/tzdb/transformer.py', find='                normalized_names[nname] = zone_name', replace='                normalized_names[zone_name] = nname', rule='G5'),
+    dict(id='symbol-table-probed-by-link-name', file='tools/tzdb/transformer.py', unique=False, nth=1,
+         find='            if normalized_names.get(nname):', replace='            if normalized_names.get(link_name):', rule='G5'),
     dict(id='collision-check-dropped', file='tools/tzdb/transformer.py',
          find='zones_map = self._detect_hash_collisions(zones_map)', replace='pass', rule='G4'),
 ]
